@@ -1,6 +1,7 @@
 ---------------------------- MODULE DepSet_Export ----------------------------
 (* spec -> code (C09): every well-formed structure of at most MaxNodes nodes that a flavour can
-   write down, rendered to tokens, plus every one-token corruption of that rendering.  The
+   write down, rendered to tokens, plus every one-token corruption of that rendering, plus the
+   nesting family (groups in groups, depth 2-3, with conditionals elsewhere).  The
    driver turns the tokens into text and feeds it to the real DepSet.parse of that flavour. *)
 EXTENDS DepSet, TLC, Json, IOUtils, SequencesExt
 CONSTANTS MaxNodes, FlagNames, CorruptNodes   \* corruptions of the structures up to CorruptNodes nodes
@@ -14,9 +15,29 @@ KindsOf(fl) == {t \in GroupKinds : IF t = "all" THEN FlavourOf(fl).plain ELSE Op
 
 Forests(fl, n) == ForestsN(LeavesOf(fl), KindsOf(fl), FlagNames, n)
 
+(* Nesting family: a group of every kind of the flavour nested directly in a group of every kind
+   (depth 2 and 3, inner group first or last), every group with at least two distinct members so that
+   nothing collapses while parsing, together with a conditional elsewhere in the text (a sibling at
+   the top, a member of the outer group, or a member of the inner group).  Flattening, reordering or
+   dropping a level while evaluating changes the meaning for some (U, T) unless the kinds allow it. *)
+NL(fl, n) == Leaf((IF fl = "dep" THEN "cat/" ELSE "") \o n, FALSE)
+Nest(fl) ==
+  LET a == NL(fl, "a")  b == NL(fl, "b")  c == NL(fl, "c")  d == NL(fl, "d")  e == NL(fl, "e")
+      K == KindsOf(fl)
+      CondOf(neg, x) == Cond("u", neg, <<x>>)
+  IN UNION {
+       {<<Grp(k[1], <<Grp(k[2], <<a, b>>), c>>), CondOf(neg, d)>>,           \* conditional beside the nest
+        <<CondOf(neg, d), Grp(k[1], <<c, Grp(k[2], <<a, b>>)>>)>>,
+        <<Grp(k[1], <<Grp(k[2], <<a, b>>), CondOf(neg, c), d>>)>>,           \* ... member of the outer group
+        <<Grp(k[1], <<Grp(k[2], <<CondOf(neg, a), b, c>>), d>>)>>,           \* ... member of the inner group
+        <<CondOf(neg, Grp(k[1], <<Grp(k[2], <<a, b>>), c>>)), d>>}           \* ... around the nest
+       : <<k, neg>> \in (K \X K) \X BOOLEAN}
+     \cup {<<Grp(k[1], <<Grp(k[2], <<Grp(k[3], <<a, b>>), c>>), d>>), CondOf(FALSE, e)>> : k \in K \X K \X K}
+     \cup {<<Grp(k[1], <<d, Grp(k[2], <<c, Grp(k[3], <<a, CondOf(FALSE, b), e>>)>>)>>)>> : k \in K \X K \X K}
+
 Gen(fl, m) == UNION {{Render(a) : a \in Forests(fl, n)} : n \in 1..m}
 \* (`->` is an ordinary word outside SRC_URI: no arrow corruptions there)
-Texts(fl) == Gen(fl, MaxNodes)
+Texts(fl) == Gen(fl, MaxNodes) \cup {Render(a) : a \in Nest(fl)}
              \cup {c \in UNION {Corruptions(s) : s \in Gen(fl, CorruptNodes)} :
                      FlavourOf(fl).arrows \/ \A k \in DOMAIN c : c[k].k # "arrow"}
 Cases == UNION {{[fl |-> fl, toks |-> s] : s \in Texts(fl) \ {<<>>}} : fl \in FlavourNames}
